@@ -66,9 +66,14 @@ func c07Leff(kind, source string) int {
 		if kind == "at-implicit" || kind == "at-code/abandoned-redeem" {
 			return 77
 		}
+	case "rt-unlimited":
+		def["rt"] = -1
+	}
+	if kind == "rt-unlimited" && source == "client-override" {
+		return c07Override["AuthorizationCodeGrantRefreshTokenLifespan"]
 	}
 	ov := func(field, base string) int {
-		if source == "client-override" {
+		if source == "client-override" || source == "rt-unlimited+override" {
 			return c07Override[field]
 		}
 		return def[base]
@@ -115,6 +120,8 @@ func c07Run(c c07Case, res *WRes) {
 		p.CodeLifespan, p.ATLifespan, p.RTLifespan = 4, 6, 8
 	case "configured-long":
 		p.CodeLifespan, p.ATLifespan, p.RTLifespan = 86400, 200000, 7776000
+	case "rt-unlimited", "rt-unlimited+override":
+		p.RTLifespan = -1
 	}
 	if c.Kind == "rt-unlimited" {
 		p.RTLifespan = -1
@@ -128,7 +135,7 @@ func c07Run(c c07Case, res *WRes) {
 	}
 	// the client: plain, or with per-client lifetimes
 	base := w.AddClient("L", "secret-L", false)
-	if c.Source == "client-override" {
+	if c.Source == "client-override" || c.Source == "rt-unlimited+override" {
 		w.Mem.Clients["L"] = &fosite.DefaultClientWithCustomTokenLifespans{DefaultClient: base, TokenLifespans: c07Lifespans()}
 	}
 	auth := w.AuthFor("L")
@@ -330,7 +337,7 @@ func c07Run(c c07Case, res *WRes) {
 		}
 	}
 	// age
-	if c.Kind == "rt-unlimited" {
+	if (c.Kind == "rt-unlimited" && c.Source != "client-override") || (c.Source == "rt-unlimited" && strings.HasPrefix(c.Kind, "rt-")) {
 		w.Advance(10 * 365 * 24 * time.Hour)
 		ok, o := present()
 		res.Trans++
@@ -507,10 +514,13 @@ func init() {
 		if !r.Quick() {
 			offsets, ages = []int{0, 100, 200, 300, 400, 500, 600, 700, 800, 900, 999}, c07AgesDeep
 		}
-		sources := []string{"default", "configured", "configured-short", "configured-long", "client-override", "session-provided"}
+		sources := []string{"default", "configured", "configured-short", "configured-long", "client-override", "session-provided", "rt-unlimited", "rt-unlimited+override"}
 		for _, k := range c07Kinds {
 			for _, s := range sources {
 				if s == "session-provided" && k != "at-implicit" && k != "at-code/abandoned-redeem" {
+					continue
+				}
+				if strings.HasPrefix(s, "rt-unlimited") && k != "rt-code" && k != "rt-password" && k != "rt-refresh" {
 					continue
 				}
 				sessions := []string{"", "openid"}
@@ -520,7 +530,7 @@ func init() {
 				jobs = append(jobs, c07Job{Kind: k, Source: s, Sessions: sessions, Offsets: offsets, Ages: ages})
 			}
 		}
-		r.Bounds = map[string]any{"kinds": c07Kinds, "sources": []string{"server default", "configured value (90/500/1000 s)", "configured short (4/6/8 s)", "configured long (1 d/200000 s/90 d)", "per-client override (all 12 fields set to distinct values)", "session-provided access-token expiry at the authorization endpoint (implicit, hybrid)"}, "ages_relative_to_expiry_s": ages,
+		r.Bounds = map[string]any{"kinds": c07Kinds, "sources": []string{"server default", "configured value (90/500/1000 s)", "configured short (4/6/8 s)", "configured long (1 d/200000 s/90 d)", "per-client override (all 12 fields set to distinct values)", "session-provided access-token expiry at the authorization endpoint (implicit, hybrid)", "unlimited refresh tokens (-1) as server default, alone and under a finite per-client override"}, "ages_relative_to_expiry_s": ages,
 			"issue_offsets_ms": offsets, "positions": []string{"fresh", "after an unrelated grant + refresh", "aged in two steps around an unrelated grant + refresh"}, "assertion_exp_encodings": []string{"int", "float", "float with fraction"},
 			"session_types": []string{"harness session (OpenID + JWT container)", "openid.DefaultSession", "oauth2.JWTSession"}, "override_table": "12 fields x 7 grant types x 4 token types"}
 		r.Rule = "every (kind, lifetime source, issue offset, history position, age, exp encoding, session type) is minted and presented on a fresh provider under a virtual clock; ages 2 s or more past the expiry instant must be refused, ages 2 s or more before an advertised expiry must be honoured; advertised lifetime within 1 s of the effective one; override table exhaustively"
